@@ -845,6 +845,12 @@ impl World {
             ["junk"] => {
                 std::fs::create_dir_all(self.storage.join("patches").join("junk")).unwrap();
             }
+            ["junkh"] => {
+                // a hidden, non-empty stray directory (what an interrupted clean-up of some other version may leave)
+                let d = self.storage.join("patches").join(".trash");
+                std::fs::create_dir_all(d.join("old")).unwrap();
+                std::fs::write(d.join("old").join("dlc.vmcode"), b"stale").unwrap();
+            }
             [f @ ("pj" | "sj"), what] => {
                 let p = self.storage.join(if *f == "pj" {
                     "patches_state.json"
